@@ -26,7 +26,7 @@ def fid(rel):
 
 
 def gen(rng, n_tus=None, n_platforms=None, outside=False, missing=0.0, toggles=True, subdir=True,
-        forced=True, computed=True, big=False):
+        forced=True, computed=True, big=False, findable=False):
     dirs = ["src"] + (["src/sub"] if subdir and rng.random() < 0.7 else []) + INC_DIRS
     if outside:
         dirs.append("@out/ext")
@@ -36,6 +36,8 @@ def gen(rng, n_tus=None, n_platforms=None, outside=False, missing=0.0, toggles=T
     for nm in names:
         k = rng.choice([1, 1, 2, 2, 3])
         ds = rng.sample(dirs, min(k, len(dirs)))
+        if findable and not any(d in INC_DIRS for d in ds):
+            ds.append(rng.choice(INC_DIRS))
         where[nm] = ds
     copies = [(d, nm) for nm in names for d in where[nm]]
     defs_of = {}  # rel -> macro it defines
@@ -114,7 +116,7 @@ def gen(rng, n_tus=None, n_platforms=None, outside=False, missing=0.0, toggles=T
             body.append(["chain", [["ifdef", "FROM_PRE", [["code"]]], ["else", None, [["code"]]]]])
         files[rel] = body
         # fix computed-include items inside headers (they use the literal spelling directly)
-        sdirs = [x for x in INC_DIRS + (["@out/ext"] if outside else []) if rng.random() < 0.75]
+        sdirs = [x for x in INC_DIRS + (["@out/ext"] if outside else []) if findable or rng.random() < 0.75]
         rng.shuffle(sdirs)
         search = []
         for sd in sdirs:
